@@ -55,6 +55,12 @@ def index_param(m):
 def r10_1(ctx, m):
     f = m.f
     idx_path, idx_dict = index_param(m)
+    if idx_path is not None and idx_dict is not None and m.writer is None:
+        stores = [st for st in walk_stmts(m.pass2.body) if isinstance(st, ast.Assign) and isinstance(st.targets[0], ast.Subscript) and norm(st.targets[0]).startswith(idx_dict + "[")]
+        src = sorted({norm(st.value) for st in stores})
+        ctx.violated("R10.1", f.where(m.pass2), f"the offsets stored in the index ({src}) are not taken with tell() on the output handle immediately before each record's write (a byte count is not a BGZF virtual offset and ignores text encoding)", key_of(f, f"offset-not-tell:{src}"), stored=src)
+        m.idx_path, m.idx_dict = idx_path, idx_dict
+        return
     if idx_path is None or idx_dict is None or m.writer is None:
         raise AnalysisError("R10.1", f.where(), "cannot identify the index path / index dictionary / output handle")
     m.idx_path, m.idx_dict = idx_path, idx_dict
